@@ -43,7 +43,13 @@ CLAIM = dict(
          "— hence sound and complete w.r.t. the reference — and never panics; a proof built by the reference BIP-37 builder for "
          "any count and any matched subset is accepted and yields exactly the matched ids in block order (given no equal sibling "
          "hashes). Tied to the code by a differential run (counts 1-600, every subset for small counts, 2^k and 2^k±1 up to 2^31 "
-         "with sparse proofs, all single-bit / single-hash / count mutations, malformed objects, real blocks).",
+         "with sparse proofs, all single-bit / single-hash / count mutations, malformed objects, real blocks). BLOCK MODEL "
+         "(CG.Props.Block): the whole of Block::validate is characterised for every block, height, network and Tx::validate behaviour - "
+         "accepted iff the root check passes, exactly one transaction is a coinbase and every other one validates under the rule flags "
+         "selected by network and height (activation heights regenerated from the tree and pinned; selection monotone, Genesis implies "
+         "FORKID) - never panics, every rejection has one of four sources; Block::inputs returns the spent outpoints iff pairwise "
+         "distinct. Tied to the code by 3 400 assembled blocks per run (7 networks x heights around the activation heights x kind "
+         "strings incl. Genesis-only and legacy-signed spends).",
     note="The pinned tree computed the depth with f32 and rejected valid proofs for counts just above 2^k, k >= 21 "
          "(proposed_fixes/C14-integer-depth.patch); the model describes the repaired code and the 2^k+1 cases stay in corpus/C14. "
          "Spec decisions: BIP-37's checks (all hashes consumed, all bits consumed up to byte padding, equal children invalid, root "
